@@ -65,6 +65,7 @@ type CancelCli struct {
 func init() {
 	Register(&Scenario{
 		Name:     "cancel",
+		DescToo:  true,
 		Property: "C06",
 		Cfg:      vsched.Config{Horizon: 10 * time.Second},
 		Params: func(tier string) []Param {
